@@ -168,16 +168,37 @@ def _reorder_parameters(parameters: list[tuple[str, Parameter | None]]) -> list[
     return pos_only + pos_kw + kw_only
 
 
+def _dataclass_fields(class_: Class) -> list[tuple[str, Parameter | None]]:
+    # Like `dataclasses` does, collect the fields of the bases in reverse MRO order,
+    # where each base contributes *all* the fields of the nearest dataclass in its own MRO
+    # (what its `__dataclass_fields__` attribute holds at runtime, inherited or not):
+    # in a diamond, a base that merely inherits a field re-asserts the definition it inherited.
+    # Then come the fields declared by the class itself.
+    fields: list[tuple[str, Parameter | None]] = []
+    try:
+        mro = class_.mro()
+    except ValueError:
+        mro = []
+    for parent in reversed(mro):
+        try:
+            dataclass_parent = next(
+                klass for klass in (parent, *parent.mro()) if _dataclass_decorator(klass.decorators)
+            )
+        except (StopIteration, ValueError):
+            continue
+        fields.extend(_dataclass_fields(dataclass_parent))
+    if _dataclass_decorator(class_.decorators):
+        fields.extend(_dataclass_parameters(class_))
+    return fields
+
+
 def _set_dataclass_init(class_: Class) -> None:
-    # Retrieve parameters from all parent dataclasses.
-    parameters: list[tuple[str, Parameter | None]] = []
     try:
         mro = class_.mro()
     except ValueError:
         mro = ()  # type: ignore[assignment]
     for parent in reversed(mro):
         if _dataclass_decorator(parent.decorators):
-            parameters.extend(_dataclass_parameters(parent))
             # At least one parent dataclass makes the current class a dataclass:
             # that's how `dataclasses.is_dataclass` works.
             class_.labels.add("dataclass")
@@ -188,8 +209,8 @@ def _set_dataclass_init(class_: Class) -> None:
 
     logger.debug("Handling dataclass: %s", class_.path)
 
-    # Add current class parameters.
-    parameters.extend(_dataclass_parameters(class_))
+    # Parameters of the parent dataclasses, then of the current class.
+    parameters = _dataclass_fields(class_)
 
     # With `init=False` no `__init__` is generated for this class (its fields, computed
     # above, still count for the `__init__` methods of dataclasses inheriting from it).
